@@ -50,7 +50,8 @@
 		}
 		if (charset == curr->ident._charset) {
 			if (charset && !idlen) {
-				if (curr->ident._base == ident) {
+				if (!curr->ident._len
+				    && curr->ident._base == ident) {
 					return (MPT_STRUCT(node) *) curr;
 				}
 			}
@@ -98,7 +99,8 @@
 			continue;
 		}
 		if (charset && !idlen) {
-			if (curr->ident._base == ident
+			if (!curr->ident._len
+			    && curr->ident._base == ident
 			    && !(--pos)) {
 				break;
 			}
